@@ -15,8 +15,8 @@ from .. import cover, itpspec, ref
 
 LEVEL = 'exploration'
 JOBS = {'quick': 2, 'thorough': 16}
-REQUIRED_MONITORS = ('tokens_original_vs_written', 'second_round_trip', 'topology_original_vs_written')
-REQUIRED_CLASSES = ('shipped', 'repeated-section', 'trailing:empty', 'trailing:multiple', 'trailing:hash',
+REQUIRED_MONITORS = ('tokens_original_vs_written', 'second_round_trip', 'topology_original_vs_written', 'written_onto_source')
+REQUIRED_CLASSES = ('shipped', 'repeated-section', 'trailing:empty', 'trailing:multiple', 'trailing:hash', 'trailing:multiple-last-empty',
                     'header-text', 'decorated', 'no-final-newline', 'shipped-with-repeated-section')
 RULE = ('all shipped topologies + generated topology texts (section order, repeated section names, trailing comment '
         'styles none/single/empty/multiple/#-leading/no-blank, comment-only, blank and preprocessor lines, header text, '
@@ -139,6 +139,20 @@ def roundtrip(ctx, path, label, truth=None, classes=()):
         got_bonds = {(min(a, b), max(a, b)) for a, b in t1[2]}
         if t1[0] != truth['name'] or [tuple(a) for a in t1[1]] != truth['atoms'] or got_bonds != truth['bonds']:
             ctx.violation(f'written-topology-differs-from-truth:{rep}', f'{label}: {len(truth["bonds"] - got_bonds)} bonds missing', witness=w)
+    # written back onto the file it was read from (a copy of the original): same content as a write elsewhere
+    same = os.path.join(_tmp['dir'], f'same_{os.getpid()}.itp')
+    shutil.copyfile(path, same)
+    try:
+        ItpFile(same).write(same)
+        inplace = ref.ref_itp_tokens(same)
+    except Exception as exc:  # noqa
+        ctx.violation(f'write-onto-source-raises:{type(exc).__name__}', str(exc)[:200], witness=w)
+        inplace = None
+    ctx.monitor('written_onto_source')
+    if inplace is not None:
+        d = diff_tokens(written, inplace)
+        if d:
+            ctx.violation(f'write-onto-source-loses:{d[0]}', f'{label}: {d[1]}', witness=w)
     # second round trip
     try:
         ItpFile(out1).write(out2)
@@ -175,7 +189,7 @@ def run_case(ctx, case):
     i = case['i']
     rng = ctx.rng('gen', i)
     text, truth = itpspec.gen_top(rng, n=int(rng.integers(1, 30)), repeated=(i % 3 == 0), decorate=(i % 4 != 0),
-                                  trailing=('plain', 'single', 'empty', 'multiple', 'hash', 'nospace'))
+                                  trailing=('plain', 'single', 'empty', 'multiple', 'hash', 'nospace', 'multiple-last-empty', 'semicolons-only'))
     path = os.path.join(_tmp['dir'], f'g{os.getpid()}.itp')
     with open(path, 'w') as fh:
         fh.write(text)
